@@ -9,7 +9,10 @@ DEFAULT_STUBS = [
 ]
 STATS = Z + "/internal/pkg/stats"
 DEFAULT_INIT = ["io", "errors"]
-DEFAULT_MODELS = {}
+DEFAULT_MODELS = {
+    "github.com/CorentinB/warc.NewWARCWritingHTTPClient": Z + "/internal/verifmodel.NewWARCWritingHTTPClient",
+    "(*github.com/CorentinB/warc.CustomHTTPClient).Close": Z + "/internal/verifmodel.WarcClientClose",
+}
 
 COMMON_ASSUME = [
     "go/ssa faithfully represents the compiled program (same front end, go1.24.2 type checker)",
@@ -78,6 +81,7 @@ PROPS["C11"] = {
     "assumptions": COMMON_ASSUME + ["item ids are distinct (uuid contract)", "append growth: capacity doubles (aliasing of re-sliced children arrays follows that policy)"],
     "harnesses": [
         {"pkg": MD, "func": "VerifH_C11_dedupe_small", "covers": ["dedupe-removed-a-node"]},
+        {"pkg": MD, "func": "VerifH_C11_dedupe_anytree", "covers": ["dedupe-removed-a-node"]},
         {"pkg": MD, "func": "VerifH_C11_dedupe_wide", "covers": ["dedupe-removed-a-node"], "thorough_only": True},
         {"pkg": MD, "func": "VerifH_C11_complete_small", "covers": ["complete-true", "complete-false"]},
         {"pkg": MD, "func": "VerifH_C11_complete_deep", "covers": ["complete-true", "complete-false"], "thorough_only": True},
@@ -98,7 +102,7 @@ PROPS["C12"] = {
                                     "select picks any ready arm (symbolic choice), default only when none is ready"],
     "harnesses": [
         {"pkg": RX, "func": "VerifH_C12_accounting3", "replay_tries": 40, "covers": ["delivered", "feedback", "finish", "feedback-unknown", "insert-blocks-when-full"]},
-        {"pkg": RX, "func": "VerifH_C12_freeze3", "replay_tries": 40, "covers": ["insert-after-freeze"]},
+        {"pkg": RX, "func": "VerifH_C12_freeze3", "replay_tries": 40, "covers": ["insert-after-freeze", "drained-after-freeze"]},
         {"pkg": RX, "func": "VerifH_C12_stop", "replay_tries": 40, "covers": ["stopped"]},
         {"pkg": RX, "func": "VerifH_C12_accounting4", "replay_tries": 40, "thorough_only": True, "covers": ["delivered", "feedback", "finish"]},
     ],
@@ -131,11 +135,27 @@ PROPS["C17"] = {
     "assumptions": COMMON_ASSUME + ["sequential consistency at atomic/mutex operations"],
     "real_pkgs": [STATS],
     "harnesses": [
-        {"pkg": ST, "func": "VerifH_C17_counter", "replay_tries": 3, "covers": ["burst-done"]},
-        {"pkg": ST, "func": "VerifH_C17_rate_mean", "replay_tries": 3, "covers": ["burst-done"]},
+        {"pkg": ST, "func": "VerifH_C17_counter", "replay_tries": 3, "replay_repeat": 300000, "covers": ["burst-done"]},
+        {"pkg": ST, "func": "VerifH_C17_rate_mean", "replay_tries": 3, "replay_repeat": 300000, "covers": ["burst-done"]},
         {"pkg": ST, "func": "VerifH_C17_mean_get", "covers": ["empty", "non-empty"]},
-        {"pkg": ST, "func": "VerifH_C17_bucket", "replay_tries": 3, "covers": ["burst-done"]},
+        {"pkg": ST, "func": "VerifH_C17_bucket", "replay_tries": 3, "replay_repeat": 300000, "covers": ["burst-done"]},
         {"pkg": ST, "func": "VerifH_C17_match", "covers": ["matched", "not-matched"]},
-        {"pkg": ST, "func": "VerifH_C17_public", "replay_tries": 3, "covers": ["burst-done"]},
+        {"pkg": ST, "func": "VerifH_C17_public", "replay_tries": 3, "replay_repeat": 300000, "covers": ["burst-done"]},
+    ],
+}
+
+AR = "internal/pkg/archiver"
+PROPS["C03"] = {
+    "level": "model_checking",
+    "explanation": "Zeno's side of graceful stop: the real archiver Start/Stop (with startWARCWriter, the discard hook chain, the bucket manager and the worker goroutines) and the real stage worker loops "
+                   "are executed from SSA for every point of the configuration matrix (proxy/direct, rate limiter on/off, HTTP timeout, 1-2 workers) and every interleaving within the preemption bound; "
+                   "a nil dereference is a panic on some path, a Stop that never returns is a state with no enabled goroutine.",
+    "bounds": "configuration matrix: proxy x rate-limit x http-timeout x {1,2} workers; idle stages (no seed in flight) or one pass-through seed; paused or not; <=2 preemptions",
+    "outside": "that every .open WARC file is renamed and holds only complete records (CorentinB/warc writer goroutines and the file system); mid-fetch stops (the HTTP client); stopPipeline's ordering across stages",
+    "assumptions": COMMON_ASSUME + ["warc.NewWARCWritingHTTPClient is modelled by a constructor returning a non-nil client whose Close()/WaitGroup are the library's real code (no network, files or writer goroutines)",
+                                    "time.After/tickers never fire unless the harness grants ticks"],
+    "stub_pkgs": DEFAULT_STUBS + [STATS],
+    "harnesses": [
+        {"pkg": AR, "func": "VerifH_C03_archiver_startstop", "replay_tries": 2, "covers": ["proxy", "direct", "stopped"]},
     ],
 }
